@@ -12,9 +12,10 @@ STABLE_KINDS = ("stable", "mergesort")
 
 
 class RowIter:
-    def __init__(self, frame: Frame, index: bool = True):
+    def __init__(self, frame: Frame, index: bool = True, pairs: bool = False):
         self.row_frame = frame
         self.index = index
+        self.pairs = pairs          # iterrows(): (label, row) pairs
 
 
 class Ops(SeriesOps):
@@ -497,7 +498,7 @@ class Ops(SeriesOps):
         return RowIter(f.derive(), kw.get("index", True))
 
     def f_iterrows(self, f, pos, kw, node):
-        return RowIter(f.derive())
+        return RowIter(f.derive(), pairs=True)
 
     def f_describe(self, f, pos, kw, node):
         return Frame(("describe", f.ctx()))
